@@ -446,7 +446,7 @@ func TestVerifC06(t *testing.T) {
 	violation := func(format string, a ...any) {
 		fmt.Fprintf(viol, format+"\n", a...)
 	}
-	scale := 4
+	scale := 3
 	if VThorough() {
 		scale = 80
 	}
